@@ -261,8 +261,8 @@ def layout_jobs(tier, want_valid, want_invalid):
         for i in range(16):                                           # names that split in two ways between type and relation (dotted / slashed / dashed / underscored)
             jobs.append({"id": "L%d" % len(jobs), "doc": 0, "dot": i, "viol": 0, "vsite": 0, "style": dict(BASE_STYLE), "ov": []})
             jobs.append({"id": "L%d" % len(jobs), "doc": 0, "dot": i, "viol": 0, "vsite": 0, "style": rstyle(), "ov": []})
-        for i in range(4 + 160):                                      # documents off the family: no types, empty condition bodies, wide operator lists before a group
-            if i < 4 or tier != "quick" or (i - 4) % 80 < 40 or i % 3 == 0:
+        for i in range(4 + 160 + 4):                                  # documents off the family: no types, empty condition bodies, wide operator lists before a group, extend + declare
+            if i < 4 or i >= 164 or tier != "quick" or (i - 4) % 80 < 40 or i % 3 == 0:
                 jobs.append({"id": "L%d" % len(jobs), "doc": 0, "special": i, "viol": 0, "vsite": 0, "style": dict(BASE_STYLE) if i % 2 == 0 or i < 4 else rstyle(), "ov": []})
         for d in range(27):                                           # full-line comments in column 0 at every line break, whatever the depth
             job(d, style=dict(BASE_STYLE, cmt=1, cind=0))
@@ -310,6 +310,12 @@ def run_layouts(chk, binary, sc, tier, want_valid, want_invalid, chain, nonascii
                 for cnd in (r.get("m") or {}).get("conds") or []:
                     cnd["expr"] = cnd["expr"].replace('"a b"', '"\u00fc\u2013\u65e5"')
                 chk.add("documents_with_multibyte_characters")
+    # a comment that a bare carriage return ends may hold characters of several bytes (every second such document): what follows the
+    # carriage return is on the same line for positions, which count characters (one character replaces one)
+    for k, r in enumerate(recs.values()):
+        if k % 2 == 1 and (" # t\r" in r["text"] or "# full\r" in r["text"]):
+            r["text"] = r["text"].replace(" # t\r", " # \u00fc\r").replace("# full\r", "# f\u65e5ll\r")
+            chk.add("documents_with_multibyte_characters")
     inp, out = sc.path("lay.in.ndjson"), sc.path("lay.out.ndjson")
     write_ndjson(inp, [{"id": r["id"], "text": r["text"], "modular": r["modular"]} for r in recs.values()])
     run_harness(binary, ["dsl-parse", "-in", inp, "-out", out] + (["-chain"] if chain else []))
@@ -561,10 +567,15 @@ def run_c03(chk, binary, sc, tier):
         elif r["modular"]:
             # a module file: every type it declares, every relation it adds to an extended type and every condition carries the module name written
             want = r["m"]["module"]
-            ext = {t["name"] for t in r["m"]["types"] if t["ext"]}
-            got = [(t["name"], t.get("module", "")) for t in p["m"]["types"] if t["name"] not in ext]
-            got += [(t["name"] + "#" + x["name"], x.get("module", "")) for t in p["m"]["types"] if t["name"] in ext for x in t.get("rels") or []]
+            # (by position: one file may extend a type and declare a type of that name as well; the models were just found equal)
+            pairs = list(zip(r["m"]["types"], p["m"]["types"]))
+            got = [(t["name"], t.get("module", "")) for w, t in pairs if not w["ext"]]
+            got += [(t["name"] + "#" + x["name"], x.get("module", "")) for w, t in pairs if w["ext"] for x in t.get("rels") or []]
             got += [("condition " + c["name"], c.get("module", "")) for c in p["m"].get("conds") or []]
+            # ... and the relations a type is DECLARED with carry none (they belong to the type, whatever else the file does with that name)
+            own = [(t["name"] + "#" + x["name"], x.get("module", "")) for w, t in pairs if not w["ext"] for x in t.get("rels") or [] if x.get("module", "")]
+            if own:
+                chk.violation("module file: relation %s of a declared type is marked as contributed by module %r" % own[0], dict(rep, attributions=own))
             bad = [g for g in got if g[1] != want]
             if bad:
                 chk.violation("module file: %s attributed to module %r, the header says %r" % (bad[0][0], bad[0][1], want), dict(rep, attributions=got))
